@@ -96,6 +96,7 @@ fn drift(a: &str, b: &str, level: LuaLanguageLevel) -> Value {
     let mut node_kind = String::from("none");
     let mut stat_kind = String::from("none");
     let mut token_kind = String::from("none");
+    let mut owner_kind = String::from("none");
     if let Some(tok) = root.token_at_offset(probe).right_biased() {
         token_kind = format!("{:?}", tok.kind().to_token());
         let mut first = true;
@@ -107,6 +108,10 @@ fn drift(a: &str, b: &str, level: LuaLanguageLevel) -> Value {
             }
             if k.ends_with("Stat") || k == "Comment" || k.starts_with("DocTag") {
                 stat_kind = k;
+                // what the comment / statement hangs on (Block, TableObjectExpr, CallArgList, ParamList ..)
+                if let Some(p) = n.parent() {
+                    owner_kind = format!("{:?}", p.kind().to_syntax());
+                }
                 break;
             }
         }
@@ -116,7 +121,7 @@ fn drift(a: &str, b: &str, level: LuaLanguageLevel) -> Value {
         let end = s[start..].find('\n').map(|i| start + i).unwrap_or(s.len());
         s[start..end].to_string()
     };
-    json!({"off": off, "ws_only": ws_only, "token": token_kind, "node": node_kind, "stat": stat_kind,
+    json!({"off": off, "ws_only": ws_only, "token": token_kind, "node": node_kind, "stat": stat_kind, "owner": owner_kind,
            "line1": line(a), "line2": line(b)})
 }
 
